@@ -362,6 +362,8 @@ def apply_contract(I, con, args, kwargs, fi=None, callee_label=None):
     for lab, f in eval_clause(con.requires, spec, views).items():
         ctx.oblige("%s/requires[%s]" % (short(label), lab), f, kind="pre")
     tr_old_len = ctx.trlen
+    if getattr(con, "ghost_call", None) is not None:
+        con.ghost_call(spec, ctx, **views)
     if con.emits is not None:
         con.emits(spec, ctx, **views)
     if con.announce:
@@ -392,6 +394,10 @@ def apply_contract(I, con, args, kwargs, fi=None, callee_label=None):
         pviews = views_of(post, typed_bound, new_heap)
         rv = post.view(res, new_heap) if res is not None else None
         for lab, f in eval_clause(con.ensures, post, pviews, result=rv).items():
+            if (f is False) or (z3.is_expr(f) and z3.is_false(f)):
+                # a postcondition that is literally `false` at a call site is a sidecar error (a clause written for the body's own verification
+                # that has no meaning in a caller), not a fact about the callee: assuming it would silently cut the caller's path
+                raise EngineError("postcondition %s of %s is the constant false at a call site" % (lab, con.key))
             ctx.assume(f)
         if not ctx.feasible():
             raise PathEnd()
